@@ -665,13 +665,56 @@ def real_data(d, style, units, ff, natypes=None, fname=None, opts=None):
         return (err_class(e), f'{type(e).__name__}: {e}')
 
 
-def real_dump(d, units, ff, prop_names=None, timestep=0, out=None):
+# dump-file columns of the standard per-atom properties (dump manual page): property -> (column names, unit kind)
+DUMP_STD = {'atom_id': (['id'], None), 'atype': (['type'], None), 'm_id': (['mol'], None), 'mass': (['mass'], 'mass'),
+            'pos': (['x', 'y', 'z'], 'length'), 'spos': (['xs', 'ys', 'zs'], 'scaled'), 'upos': (['xu', 'yu', 'zu'], 'length'),
+            'supos': (['xsu', 'ysu', 'zsu'], 'scaled'), 'velocity': (['vx', 'vy', 'vz'], 'velocity'),
+            'force': (['fx', 'fy', 'fz'], 'force'), 'charge': (['q'], 'charge'), 'mu': (['mux', 'muy', 'muz'], 'dipole'),
+            'mu_mag': (['mu'], 'dipole'), 'radius': (['radius'], 'length'), 'diameter': (['diameter'], 'length'),
+            'ang_velocity': (['omegax', 'omegay', 'omegaz'], 'ang-vel'),
+            'ang_momentum': (['angmomx', 'angmomy', 'angmomz'], 'ang-mom'), 'torque': (['tqx', 'tqy', 'tqz'], 'force*length')}
+
+
+def explicit_dump_args(d, units, prop_names, how):
+    """the conversion parameters the writer derives by itself for `prop_names`, spelled out by the caller: as a
+    prop_info list (`how` = 'prop_info') or as parallel prop_name/table_name/shape/unit lists ('lists').  The file
+    must be the same as with the defaults."""
+    from atomman.lammps import style
+    lu = style.unit(units)
+    info = []
+    for nm in prop_names:
+        if nm in DUMP_STD:
+            names, kind = DUMP_STD[nm]
+            shape = () if len(names) == 1 else (3,)
+            unit = None if kind is None else 'scaled' if kind == 'scaled' else \
+                (None if any(lu[p] is None for p in kind.split('*')) else '*'.join(lu[p] for p in kind.split('*')))
+        else:
+            shape = tuple(d['props'][nm][1])
+            names = [nm + ''.join(f'[{i}]' for i in idx) for idx in _indices(shape)]
+            unit = None
+        info.append({'prop_name': nm, 'table_name': names[0] if len(names) == 1 and how == 'prop_info' else names,
+                     'shape': shape, 'unit': unit})
+    if how == 'prop_info':
+        return {'prop_info': info}
+    return {'prop_name': [p['prop_name'] for p in info], 'table_name': [p['table_name'] for p in info],
+            'shape': [p['shape'] for p in info], 'unit': [p['unit'] for p in info]}
+
+
+def _indices(shape):
+    if not shape:
+        return [()]
+    return [(i,) + r for i in range(shape[0]) for r in _indices(shape[1:])]
+
+
+def real_dump(d, units, ff, prop_names=None, timestep=0, out=None, explicit=None):
     s = build_system(d)
     if timestep:
         s.timestep = timestep      # what a system loaded from a dump file carries
     try:
         kw = {}
-        if prop_names is not None:
+        if prop_names is not None and explicit:
+            kw.update(explicit_dump_args(d, units, prop_names, explicit))
+        elif prop_names is not None:
             kw['prop_name'] = list(prop_names)
         return ('ok', _dump_via(s, 'atom_dump', out, lammps_units=units, float_format=fmt_py(ff), **kw)[0])
     except Exception as e:  # noqa
@@ -1467,13 +1510,16 @@ def gen_dump_case(rng, i):
         # explicit column selection with scaled / unwrapped position variants
         prop_names = ['atom_id', 'atype'] + rng.sample(['pos', 'spos', 'upos', 'supos'], rng.randint(1, 3)) \
             + [p for p in d['props'] if p != 'atom_id' and rng.random() < 0.7]
-    return {'kind': 'dump', 'd': d, 'units': units, 'ff': ff, 'prop_names': prop_names,
+    explicit = None
+    if prop_names is not None and rng.random() < 0.3:
+        explicit = rng.choice(['prop_info', 'lists'])
+    return {'kind': 'dump', 'd': d, 'units': units, 'ff': ff, 'prop_names': prop_names, 'explicit': explicit,
             'timestep': rng.choice([0, 0, 1, 12, 250000, 10 ** 9, 2 ** 31, 3 * 10 ** 9, 2 ** 40 + 7]), 'out': gen_out(rng, 'a.dump')}
 
 
 def gen_poscar_case(rng, i):
     regime = 'grid' if i % 2 == 0 else 'generic'
-    d = gen_desc(rng, regime, [], lammps=rng.random() < 0.7)
+    d = gen_desc(rng, regime, [], lammps=rng.random() < 0.7, nmax=40 if rng.random() < 0.15 else 10)
     coordstyle = rng.choice(['direct', 'cartesian', 'Direct', 'Cartesian', 'cart', 'k', 'D'])
     if regime == 'grid':
         scale = rng.choice([1.0, 2.0, 0.5, 4.0, 0.25, 1.0])
@@ -1511,11 +1557,14 @@ def gen_table_case(rng, i):
     props = [p for p in [('velocity', 0, 3), ('charge', 0, 1), ('m_id', 1, 1), ('force', 0, 3)] if rng.random() < 0.5]
     d = gen_desc(rng, regime, props)
     cols = [('atype', 'none', ['type'])]
-    cols.append(('pos', rng.choice(['length', 'scaled', 'none']), ['x', 'y', 'z']))
+    cols.append(('pos', rng.choice(['length', 'scaled', 'none']), rng.choice([['x', 'y', 'z'], ['r_c', 'r_a', 'r_b'], ['z', 'x', 'y']])))
     kinds = {'velocity': 'velocity', 'charge': 'charge', 'force': 'force'}
     for name, is_int, nc in props:
         us = kinds.get(name, 'none') if rng.random() < 0.7 else 'none'
-        cols.append((name, us, [name] if nc == 1 else [f'{name}[{k}]' for k in range(nc)]))
+        names = [name] if nc == 1 else [f'{name}[{k}]' for k in range(nc)]
+        if nc > 1 and rng.random() < 0.5:
+            names = [f'{name[0]}{w}' for w in rng.sample(['_one', '_two', '_3', 'X', 'b', 'A'], nc)]    # any order of names
+        cols.append((name, us, names))
     if rng.random() < 0.5:
         cols.insert(0, ('a_id', 'none', ['id']))
     return {'kind': 'table', 'd': d, 'units': units, 'ff': pick_format(rng, units), 'cols': cols,
@@ -1575,7 +1624,8 @@ def real_call(c):
     if c['kind'] == 'data':
         return real_data(c['d'], c['style'], c['units'], c['ff'], c['natypes'], c['fname'], c.get('opts'))
     if c['kind'] == 'dump':
-        return real_dump(c['d'], c['units'], c['ff'], c['prop_names'], c.get('timestep', 0), c.get('out'))
+        return real_dump(c['d'], c['units'], c['ff'], c['prop_names'], c.get('timestep', 0), c.get('out'),
+                         c.get('explicit'))
     if c['kind'] == 'poscar':
         return real_poscar(c['d'], c['ff'], c['coordstyle'], c['scale'], c['header'], c.get('symarg', c['symbols']),
                            c.get('out'))
